@@ -113,6 +113,9 @@ class SOCKS4(SOCKSBase):
         self._remote_port = remote_address.port
         self._auth = auth
         self._check_remote_host()
+        # The user ID is sent NUL-terminated so it cannot itself contain a NUL
+        if isinstance(auth, SOCKSUserAuth) and '\0' in auth.username:
+            raise SOCKSProtocolError(f'{self.name()} user ID cannot contain a NUL character')
 
     def _check_remote_host(self):
         if not isinstance(self._remote_host, IPv4Address):
